@@ -63,6 +63,12 @@ def compact (s : Store) (i t : Nat) : Store :=
   | none => { s with prePtr := some (i, t) }
   | some (pi, pt) => { savePointer s pi pt with prePtr := some (i, t) }
 
+/-- the log part of `finalize_snapshot_installation` (a snapshot sent by the leader, index `i`, term `t`): whatever the
+log held - nothing, less than the snapshot, more than the snapshot - it is now the snapshot's pointer alone and the next
+entry accepted is `i + 1` (fixes F28 / F29: the two cases `delete_through = None / Some` no longer differ) -/
+def install (s : Store) (i t : Nat) : Store :=
+  { s with ents := [⟨i, t, .pointer⟩], next := some (i + 1), lastTerm := t }
+
 def get (s : Store) (a b : Nat) : List Ent := s.ents.filter fun e => a ≤ e.index ∧ e.index < b
 
 def last (s : Store) : Nat × Nat :=
